@@ -67,6 +67,6 @@ structure DEnd (s : Nat) (st : Stream) (cl : Client) : Prop where
   failstop : st.src.pc = .failStop → st.sto.disturbed = true
 
 def DEndP (s : Nat) (st : Stream) (cl : Client) : Prop :=
-  st.cam.emptyEvery = 0 → cl.misused = false → 0 < st.F → DEnd s st cl
+  Here st → cl.misused = false → 0 < st.F → DEnd s st cl
 
 end AcqVerif.Runtime
